@@ -174,13 +174,18 @@ def loss_context(ex, s, x):
 
 
 PROFILE = {
+    # polling clients come in flavours: plain, JSONP (j=<n>, d=<payload> posts), compressed
+    # answers (Accept-Encoding with a low threshold), both
+    'client_flavours': ['plain', 'plain', 'plain', 'jsonp', 'gzip', 'jsonp+gzip'],
     'weights': {'open': 3, 'poll': 5, 'post': 1, 'probe_step': 6, 'ws_send': 1, 'ws_close': 1,
                 'ws_fail': 1, 'pong': 1, 'app_send': 8, 'app_burst': 1, 'advance': 3},
     'max_sessions': 3,
     'packet_kinds': [('msg', 4), ('pong', 2), ('upgrade', 1)],
     'post_modes': [('pkts', 1)],
     'declared_delta': [0],
-    'config': {'transports': st.sampled_from([None, None, None, None, ['polling', 'websocket'],
+    'config': {'http_compression': st.sampled_from([True, True, False]),
+               'compression_threshold': st.sampled_from([0, 16, 1024]),
+               'transports': st.sampled_from([None, None, None, None, ['polling', 'websocket'],
                                               ['polling'], ['websocket']]),
                'allow_upgrades': st.sampled_from([True, True, True, True, False]),
                'ping_interval': st.sampled_from([1, 5, 25, 25]),
